@@ -151,6 +151,35 @@ def check_ldt(ctx, name, us):
         V(ctx, f"ldt-own-roundtrip:{name}", f"{name} does not round-trip {d!r} via {s!r}", case)
 
 
+def check_ldt_variable(ctx, o, sec, ns):
+    """LocalDateTime variable-precision / shortened ISO forms, to the nanosecond: the shortest exact form, readable back (and by the stdlib)."""
+    from pyoda_time import LocalDate, LocalTime
+    P = pats()
+    d = dt.date.fromordinal(o); l = LocalDate.from_date(d).at(LocalTime.from_nanoseconds_since_midnight(sec * 10**9 + ns))
+    tot = sec * 10**9 + ns
+    case = {"kind": "ldt_var", "o": o, "sec": sec, "ns": ns}
+    ctx.ev(); ctx.count("ldt"); ctx.key(("ldt-var", tot % (3600 * 10**9) == 0, tot % (60 * 10**9) == 0, ns == 0, 0 < ns < 100))
+    s = P["ldt_variable_precision_iso"].format(l)
+    tshape = r"\d{2}" if tot % (3600 * 10**9) == 0 else (r"\d{2}:\d{2}" if tot % (60 * 10**9) == 0 else (r"\d{2}:\d{2}:\d{2}" if ns == 0 else r"\d{2}:\d{2}:\d{2}\.\d{1,9}"))
+    if not re.fullmatch(r"\d{4}-\d{2}-\d{2}T" + tshape, s) or ("." in s and s.endswith("0")):
+        V(ctx, "ldt-variable-precision-shape", f"LocalDateTimePattern.variable_precision_iso.format({d} + {sec}s + {ns}ns) = {s!r}; the shortest exact ISO form has time shape {tshape}", case, s)
+    r = P["ldt_variable_precision_iso"].parse(s)
+    if not r.success or r.value != l:
+        V(ctx, "ldt-own-roundtrip:variable_precision_iso", f"variable_precision_iso does not read {s!r} back as the value formatted ({d} + {sec}s + {ns}ns)", case)
+    if ns % 1000 == 0:
+        try:
+            b = dt.datetime.fromisoformat(s if len(s) > 13 else s + ":00")
+            if b != dt.datetime.combine(d, dt.time(sec // 3600, sec // 60 % 60, sec % 60, ns // 1000)):
+                V(ctx, "ldt-stdlib-reads-other:variable_precision_iso", f"{s!r} read by the stdlib as {b!r}", case, s)
+        except ValueError as e:
+            V(ctx, "ldt-stdlib-rejects:variable_precision_iso", f"{s!r} rejected by the stdlib: {e}", case, s)
+    if tot % (60 * 10**9) == 0:
+        for nm in ("ldt_date_hour_minute_iso",) + (("ldt_date_hour_iso",) if tot % (3600 * 10**9) == 0 else ()):
+            tx = P[nm].format(l); r2 = P[nm].parse(tx)
+            if not r2.success or r2.value != l:
+                V(ctx, f"ldt-own-roundtrip:{nm}", f"{nm} does not round-trip {d} + {sec}s via {tx!r}", case)
+
+
 def check_instant(ctx, name, us):
     from pyoda_time import Instant
     p = pats()["inst_" + name]
@@ -415,6 +444,8 @@ def run(ctx, shard):
         if j % 5 == 0: ns = ns // 1000 * 1000
         sec = rng.choice([0, 86399, 3600, 43200]) if j % 9 == 0 else (rng.randrange(1440) * 60 if j % 4 == 1 else rng.randrange(86400))
         check_time(ctx, sec, ns); ctx.count("time")
+        if j % 3 == 0:
+            check_ldt_variable(ctx, rng.randint(1, MAXORD), sec, ns)
     edges = [0, 1, TOTAL_US - 1, TOTAL_US - 10**6, 365 * 86400 * 10**6 - 1, 365 * 86400 * 10**6]
     def pick(j):
         if j % 11 == 0: return rng.choice(edges)
